@@ -13,7 +13,8 @@ RULE = ("Unit.parse and Quantity.parse on text from four generators (grammar-der
         "determinism (each text parsed twice), registry snapshots around rejected inputs, magnitude type of accepted "
         "quantities.  distinct = input string; non-trivial = not empty and not a single registered symbol"
         " One shard imports the core package alone and declares its own units; refused operations (x ** 2.0 ...) precede the parse of that very unit and exponent; boundary inputs include 4300-digit and 308-digit exponents on mixed-base compounds."
-        " Texts are also parsed while another thread declares units, aliases and prefixes: stopped before every line executed anywhere (line scheduler over library, lark and stdlib, seeded schedules) and free-running with a 1 us switch interval.")
+        " Texts are also parsed while another thread declares units, aliases and prefixes: stopped before every line executed anywhere (line scheduler over library, lark and stdlib, seeded schedules) and free-running with a 1 us switch interval."
+        " The interpreter's integer-digit limit is lowered at run time; the first shard runs under python -OO.")
 ASSUMPTIONS = [
     "permitted outcomes: a Unit / Quantity, ParseError (the shipped parser's LarkError) or KeyError",
     "Unit._known may legitimately grow on accepted input; names and symbols of Unit, Prefix and Dimension may not change at all",
